@@ -140,6 +140,18 @@ def gen_cuboid_partition(rng):
             p = [rnd(rng, -1.5 * size, 1.5 * size) for _ in range(3)]
         if all(off_planes(p[i], edges[i], margin) for i in range(3)):
             obs.append(p)
+    if rng.random() < 0.4:
+        # on the (infinite) plane of a face or of a cut but OUTSIDE the body: off every surface, yet the special
+        # branches of the parts (observer coordinate equal to a face coordinate) are taken
+        for _ in range(2):
+            ax = rng.randrange(3)
+            p = [rnd(rng, -1.5 * size, 1.5 * size) for _ in range(3)]
+            p[ax] = rng.choice(edges[ax])
+            o = rng.choice([k for k in range(3) if k != ax])
+            p[o] = (dim[o] / 2 + rnd(rng, 0.05, 1.0) * size) * rng.choice([-1, 1])
+            q = 3 - ax - o
+            if off_planes(p[q], edges[q], margin) and off_planes(p[o], edges[o], margin):
+                obs.append(p)
     return {"family": "cuboid_partition", "dim": dim, "edges": edges, "pol": gen_pol(rng), "pose": gen_pose(rng),
             "obs": obs, "mode": rng.choice(["sumup", "collection", "loop"])}
 
@@ -210,6 +222,24 @@ def gen_cylinder_partition(rng):
         if not okp:
             continue
         obs.append([r * math.cos(math.radians(ph)), r * math.sin(math.radians(ph)), z])
+    if rng.random() < 0.4:
+        # on the extension of a face / cut surface but outside the body (off every surface): plane z = z_k beyond
+        # r2 (or in the bore), cylinder r = r_i above / below, half plane phi = phi_j beyond r2, the axis above
+        for _ in range(2):
+            k = rng.choice(["zplane", "rcyl", "phiplane", "axis"])
+            ph = rnd(rng, -180, 180, 3)
+            if k == "zplane":
+                z, r = rng.choice(ze), r2 * (1 + rnd(rng, 0.1, 1.5))
+                if r1 > 0 and rng.random() < 0.3:
+                    r = r1 * rnd(rng, 0.1, 0.9)
+            elif k == "rcyl":
+                r = rng.choice([x for x in re_ if x > 0])
+                z = (h / 2) * (1 + rnd(rng, 0.1, 1.5)) * rng.choice([-1, 1])
+            elif k == "phiplane":
+                ph, r, z = rng.choice(pe), r2 * (1 + rnd(rng, 0.1, 1.5)), rnd(rng, -1, 1) * h
+            else:
+                r, ph, z = 0.0, 0.0, (h / 2) * (1 + rnd(rng, 0.1, 1.5)) * rng.choice([-1, 1])
+            obs.append([r * math.cos(math.radians(ph)), r * math.sin(math.radians(ph)), z])
     return {"family": "cylinder_partition", "kind": kind, "r": re_, "phi": pe, "z": ze, "pol": gen_pol(rng),
             "pose": gen_pose(rng), "obs": obs, "mode": rng.choice(["sumup", "collection", "loop"])}
 
@@ -405,6 +435,94 @@ def gen_mesh_convert(rng):
             "path": path, "obs": obs, "mode": rng.choice(["sumup", "collection", "loop"])}
 
 
+# ------------------------------------------------------------------ family 7: Cuboid = slabs in mixed representations
+# each slab of an x/y/z-cut Cuboid is given as a Cuboid, a TriangularMesh (12 or 24 faces: ragged meshes in one
+# call), 5 or 6 Tetrahedra: "any partition, different classes describing the same body"
+SLAB_REPS = ["cuboid", "mesh12", "mesh24", "tetra5", "tetra6"]
+
+
+def gen_mixed_partition(rng):
+    dim = [rnd(rng, 0.5, 3.0) for _ in range(3)]
+    ax = rng.randrange(3)
+    n = rng.choice([2, 2, 3, 4])
+    edges = cuts(rng, -dim[ax] / 2, dim[ax] / 2, n, minfrac=0.3)
+    reps = [rng.choice(SLAB_REPS) for _ in range(n)]
+    if all(r == "cuboid" for r in reps):
+        reps[rng.randrange(n)] = rng.choice(SLAB_REPS[1:])
+    size = max(dim)
+    margin = 0.03 * min(min(dim), min(edges[i + 1] - edges[i] for i in range(n)))
+    planes = []
+    for k in range(n):
+        lo = [-d / 2 for d in dim]
+        hi = [d / 2 for d in dim]
+        lo[ax], hi[ax] = edges[k], edges[k + 1]
+        V = _slab_vertices(lo, hi)
+        for i in range(3):
+            e = np.zeros(3)
+            e[i] = 1.0
+            planes += [(e, lo[i]), (e, hi[i])]
+        if reps[k] in ("tetra5", "tetra6"):
+            for t in (TETRA5 if reps[k] == "tetra5" else TETRA6):
+                planes += _tri_planes([tuple(V[t[i]] for i in tri) for tri in ((0, 1, 2), (0, 1, 3), (0, 2, 3), (1, 2, 3))])
+    obs = []
+    tries = 0
+    while len(obs) < 6 and tries < 5000:
+        tries += 1
+        if rng.random() < 0.5:
+            p = [rnd(rng, -dim[i] / 2, dim[i] / 2) for i in range(3)]
+        else:
+            p = [rnd(rng, -1.5 * size, 1.5 * size) for _ in range(3)]
+        if any(abs(float(nv @ np.array(p)) - o) <= margin for nv, o in planes):
+            continue
+        obs.append(p)
+    return {"family": "mixed_partition", "dim": dim, "axis": ax, "edges": edges, "reps": reps, "pol": gen_pol(rng),
+            "pose": gen_pose(rng), "obs": obs, "mode": rng.choice(["sumup", "collection", "loop"])}
+
+
+def _slab_vertices(lo, hi):
+    c = (np.array(lo) + np.array(hi)) / 2
+    h = (np.array(hi) - np.array(lo)) / 2
+    return np.array(CUBE_V, dtype=float) * h + c
+
+
+def _mesh24(V):
+    """each face split into 4 triangles around its centre (outward orientation kept)"""
+    quads = [(0, 3, 2, 1), (4, 5, 6, 7), (0, 1, 5, 4), (2, 3, 7, 6), (1, 2, 6, 5), (0, 4, 7, 3)]
+    verts = [v for v in V]
+    faces = []
+    for q in quads:
+        ctr = np.mean([V[i] for i in q], axis=0)
+        verts.append(ctr)
+        ci = len(verts) - 1
+        for i in range(4):
+            faces.append((q[i], q[(i + 1) % 4], ci))
+    return np.array(verts), faces
+
+
+def build_mixed_partition(c):
+    pose, pol, ax = c["pose"], c["pol"], c["axis"]
+    wp = whole_pose(pose)
+    whole = magpy.magnet.Cuboid(polarization=pol, dimension=c["dim"], **wp)
+    parts = []
+    for k, rep in enumerate(c["reps"]):
+        lo = [-d / 2 for d in c["dim"]]
+        hi = [d / 2 for d in c["dim"]]
+        lo[ax], hi[ax] = c["edges"][k], c["edges"][k + 1]
+        V = _slab_vertices(lo, hi)
+        if rep == "cuboid":
+            parts.append(magpy.magnet.Cuboid(polarization=pol, dimension=[hi[i] - lo[i] for i in range(3)],
+                                             **place(pose, [(hi[i] + lo[i]) / 2 for i in range(3)])))
+        elif rep == "mesh12":
+            parts.append(magpy.magnet.TriangularMesh(polarization=pol, vertices=V, faces=CUBE_F, **wp))
+        elif rep == "mesh24":
+            v24, f24 = _mesh24(V)
+            parts.append(magpy.magnet.TriangularMesh(polarization=pol, vertices=v24, faces=f24, **wp))
+        else:
+            for t in (TETRA5 if rep == "tetra5" else TETRA6):
+                parts.append(magpy.magnet.Tetrahedron(polarization=pol, vertices=V[list(t)], **wp))
+    return whole, parts
+
+
 FAMILIES = {
     "cuboid_partition": gen_cuboid_partition,
     "cylinder_partition": gen_cylinder_partition,
@@ -412,6 +530,7 @@ FAMILIES = {
     "sphere_dipole": gen_sphere_dipole,
     "polyline_circle": gen_polyline_circle,
     "mesh_convert": gen_mesh_convert,
+    "mixed_partition": gen_mixed_partition,
 }
 
 
@@ -460,9 +579,9 @@ def build_mesh_convert(c):
 # tolerance (rtol on the local field, atol in units of the field scale) per family; measured noise on the pinned
 # tree is <= 1e-8 (cylinder segments) resp. <= 1e-11 (everything else) relative to the local field
 TOL = {"cuboid_partition": (1e-7, 1e-10), "cylinder_partition": (2e-6, 1e-9), "cuboid_repr": (1e-7, 1e-10),
-       "sphere_dipole": (1e-9, 1e-12), "mesh_convert": (1e-7, 1e-10)}
+       "sphere_dipole": (1e-9, 1e-12), "mesh_convert": (1e-7, 1e-10), "mixed_partition": (1e-7, 1e-10)}
 
-CLAUSE = {"cuboid_partition": "Cuboid=sum-of-Cuboids", "sphere_dipole": "Sphere-outside=Dipole",
+CLAUSE = {"cuboid_partition": "Cuboid=sum-of-Cuboids", "mixed_partition": "Cuboid=sum-of-mixed-parts", "sphere_dipole": "Sphere-outside=Dipole",
           "polyline_circle": "Polyline->Circle"}
 
 
@@ -493,7 +612,7 @@ def region_of(c, i):
     """is observer i (local frame) inside the whole body? decided geometrically, not by the code"""
     p = np.array(c["obs"][i], dtype=float)
     fam = c["family"]
-    if fam in ("cuboid_partition", "cuboid_repr"):
+    if fam in ("cuboid_partition", "cuboid_repr", "mixed_partition"):
         return "inside" if all(abs(p[k]) < c["dim"][k] / 2 for k in range(3)) else "outside"
     if fam == "cylinder_partition":
         r, z = math.hypot(p[0], p[1]), p[2]
@@ -527,6 +646,8 @@ def evaluate(c):
             comps = [(None,) + build_cuboid_partition(c) + (FIELDS,)]
         elif fam == "cylinder_partition":
             comps = [(None,) + build_cylinder_partition(c) + (FIELDS,)]
+        elif fam == "mixed_partition":
+            comps = [(None,) + build_mixed_partition(c) + (FIELDS,)]
         elif fam == "cuboid_repr":
             comps = [(None,) + build_cuboid_repr(c)]
         elif fam == "sphere_dipole":
@@ -664,6 +785,15 @@ def _variants(c):
                 tot = sum(len(d.get(k2, c[k2])) - 2 for k2 in ("r", "phi", "z"))
                 if tot >= 1 or c["kind"] in ("full_segment", "segment"):
                     v(**d)
+    if c["family"] == "mixed_partition":
+        for k, r in enumerate(c["reps"]):
+            if r != "cuboid" and sum(1 for x in c["reps"] if x != "cuboid") > 1:
+                rr = list(c["reps"])
+                rr[k] = "cuboid"
+                v(reps=rr)
+        for k in range(1, len(c["edges"]) - 1):
+            if len(c["edges"]) > 3:
+                v(edges=c["edges"][:k] + c["edges"][k + 1:], reps=c["reps"][:k] + c["reps"][k + 1:])
     if c["family"] == "mesh_convert" and c.get("path"):
         v(path=[])
     return out
